@@ -95,6 +95,16 @@ CHECKS["C07"] = ("exploration",
     "Generated origins (up to 6 of 11 feature kinds incl. image, mask, contour, trace, float32 images; optional internal basin) and programs of 1-5 steps, each using any earlier file as source (up to 4 basin hops): referrers with unmapped/mapped basins (sorted, unsorted, repeating, permuted, superset, chunk-crossing, length-1 maps; feature restriction; own copies of basin features; absolute/relative locations), export.hdf5(basins=True) from files, hierarchy children and grandchildren (filtered or not, with/without stored features), rtdc_copy, and moving the whole directory tree. Every produced file is re-opened and every feature compared on every access route (integer incl. negative, stepped slice, boolean mask, [:], np.asarray) with the model; features_basin, membership, innate-ness, len, shape. Exact comparisons. Exploration, not proof.",
     "Only file/hdf5 and internal basins (remote formats: C14/C19); when own copies upstream make two basins disagree either is accepted (counted); ancillary features derived from basin data are not compared.",
     "DESIGN.md §5 C07, notes/C07.md")
+CHECKS["C06"] = ("exploration",
+    "stateful operation-history generation (Hypothesis) on a long-lived dataset (+ hierarchy child) with a fresh-dataset differential after every observation, an availability model and direct recipe evaluation",
+    "Generated histories (<=40 operations) starting from near-complete configurations with every changeable feature read once: set/change/delete 18 [calculation]/[imaging]/[setup]/[user] keys (5 emodulus keys, 6 crosstalk elements), set/replace temporary features and ml_score_???, register/replace/remove plugin recipes, parent filter changes, reads / membership / feature lists on the dataset and on the refreshed child. For every observation a fresh dataset is built from the current model state: value equal (NaN-aware, exact) or same exception class; membership and feature list equal; membership <=> reading succeeds (deliberate errors only in contradictory configurations); availability per documented scenario; emodulus A/B/C precedence, area_um, time, aspect, ml_class, plugin formulas and crosstalk correction against direct evaluation. Exploration, not proof.",
+    "Input data fixed per case; HDF5 features are hashed by (file, dataset name) so on-disk changes under an open dataset are out of scope; definitions of volume/brightness/inertia are C18's subject.",
+    "DESIGN.md §5 C06, notes/C06.md")
+CHECKS["C14"] = ("exploration",
+    "Hypothesis-generated basin-reference graphs over <=6 files (local, loopback HTTP, remote-format stand-in) + reference model = graph search over the spec; signature features name the providing file; dataset constructions counted against a precomputed walk bound",
+    "Generated graphs (chains, k-cycles, lasso, diamond, self loop, random) with run-identifier classes (equal, prefix, prefix of prefix, unrelated, derived, none), edge types file / http / remote-format stand-in / internal, mapped or same, feature restrictions, absolute/relative/dangling/second-candidate locations; entry opened locally, through RTDC_HTTP and through the stand-in. Termination: number of dataset constructions bounded by the graph's walk bound (deterministic cut, no wall clock). Isolation: every returned array carries the signature of a provider reachable over existing, permitted, identifier-matching edges; no local file is opened below a network format. Availability: features on accepted simple paths are readable and listed, others raise KeyError and are not listed. Exact comparisons. Exploration, not proof.",
+    "S3/DCOR transports are not run (their only relevant behaviour, _local_basins_allowed = False for non-hdf5 formats, is exercised through a stand-in subclass and RTDC_HTTP on loopback); referrers without identifier are unspecified; byte-identical basin definitions excluded (cycles are cut by key).",
+    "DESIGN.md §5 C14, notes/C14.md")
 NOT_APPLICABLE = {}
 
 def main():
